@@ -19,6 +19,8 @@ var coreStrings = []string{
 	"\x00", "a\x00'", "\n", "'\n--", `--`, `/*`, `*/`, `#`, `;`, `$$`,
 	"\xff", "\xff'", "é'日本", `"`, "`", `"'` + "`",
 	`{}`, `}}`, `sleep(3)`, `(SELECT 1)`, "ʼ＇’", ``,
+	// accepted by identifier slots, still meaningful to SQL
+	`select`, `OR`, `a--b`, `x.y-z`, `sleep`, `x__1`,
 }
 
 // extraStrings: the rest of the fixed corpus (thorough tier sees all of it at every position,
@@ -39,6 +41,7 @@ var extraStrings = []string{
 	`\\'--`, `\\\\'--`, `\'\'`, `'\'`, `\''`, `'\\`, `'\\'`, `''\`, `a''b`, `a\'\'b`,
 	` `, `  x  `, `x y`, ` '`, `' `, `=`, `!=`, `=~`, `~`, `!`, `,`, `|`, `||`, `&&`, `(`, `)`, `[`, `]`, `<`, `>`, `.`, `..`, `../x`, `a/b`, `a/b'`, `?`, `&x=1`, `+`, `a+b`, `%2F`,
 	`.*`, `.+`, `a.*'`, `(?i)abc`, `(?i)a'b`, `(?i)a%b`, `[']`, `a|'`, `^'$`, `\d+'`, `(?P<x>a)'`, `(a)(b)`, `(`, `a\.b`, `a\.b'`, `\Qa'b\E`, `x{2}`, `(?s).`, `\`,
+	`deadbeefdeadbeefdeadbeefdeadbeef`, `DEADBEEF00000000deadbeef00000000`, `0123456789abcdef0123456789abcdef0123456789abcdef0123456789abcdef`, `0123456789abcdef`,
 	`true`, `null`, `NULL`, `0`, `1e9`, `-1`, `0x27`, `1'`, `1 OR 1=1`, `__name__`, `zqmarkerqz'`,
 }
 
@@ -94,6 +97,31 @@ func genString(r *rand.Rand) string {
 		s = `'` + s
 	}
 	return s
+}
+
+var identWords = []string{"select", "SELECT", "union", "or", "OR", "and", "sleep", "drop", "table", "from", "where", "x", "a", "zq", "_", "__", "0", "1", "27", "x27", "name", "duration", "span", "resource"}
+
+// genIdent draws a string made of identifier characters only (plus the `.`, `-` and `:` some
+// identifier lexers admit), or a hexadecimal id.
+func genIdent(r *rand.Rand) string {
+	if r.Intn(5) == 0 {
+		const hexd = "0123456789abcdefABCDEF"
+		n := []int{32, 32, 32, 16, 64, 31, 33}[r.Intn(7)]
+		b := make([]byte, n)
+		for i := range b {
+			b[i] = hexd[r.Intn(len(hexd))]
+		}
+		return string(b)
+	}
+	var sb strings.Builder
+	n := 1 + r.Intn(4)
+	for i := 0; i < n; i++ {
+		if i > 0 {
+			sb.WriteString([]string{"_", "_", "", ".", "-", "--", ":", "__"}[r.Intn(8)])
+		}
+		sb.WriteString(identWords[r.Intn(len(identWords))])
+	}
+	return sb.String()
 }
 
 var unicodeQuotes = []string{"ʼ", "‘", "’", "＇", "″", "′", "ˈ", "՚", "｀", "＼"}
